@@ -718,6 +718,56 @@ def taking_probes(rec):
                         rec.violation("copy-of-declared-port-refused", f"a copy of a declared port of an {owner_kind} was refused: {str(e)[:100]}", case=case)
 
 
+def visibility_probes(rec):
+    """A Signal whose visibility is changed after it was added, and which is then added AGAIN (by assignment, by add(), by
+    add(name=)): it is listed in exactly one kind-specific view - the ports exactly when it has port visibility - and the exported
+    module has it as a port exactly then.  (Without the re-add the views keep what they were told at the time: not demanded here.)"""
+    import hdl21 as h
+
+    V = h.signal.Visibility
+    for start, to in ((V.INTERNAL, V.PORT), (V.PORT, V.INTERNAL)):
+        for form in ("setattr", "add", "add-named"):
+            for repeat in (1, 2):
+                rec.count("visibility.probed")
+                case = {"kind": "visibility", "from": start.name, "to": to.name, "form": form, "repeat": repeat}
+                rec.case(key=f"visibility:{start.name}:{to.name}:{form}:{repeat}", nontrivial=True, sample=case)
+                m = h.Module(name=f"Vis{next(_ctr)}")
+                m.x = h.Input()
+                m.s = h.Signal() if start == V.INTERNAL else h.Output()
+                m.r = h.R(r=1)(p=m.x, n=m.s)
+                sig = m.s
+                try:
+                    for _ in range(repeat):
+                        sig.vis = to
+                        if to == V.PORT and sig.direction is None:
+                            pass
+                        if form == "setattr":
+                            m.s = sig
+                        elif form == "add":
+                            m.add(sig)
+                        else:
+                            m.add(sig, name="s")
+                except Exception:
+                    rec.count("visibility.refused")
+                    continue
+                in_ports, in_sigs = m.ports.get("s") is sig, m.signals.get("s") is sig
+                want_port = to == V.PORT
+                if in_ports == in_sigs or in_ports != want_port:
+                    rec.violation("views-disagree-with-visibility", f"a signal added as {start.name}, made {to.name} and added again by {form} (x{repeat}) is listed in "
+                                  f"ports: {in_ports}, signals: {in_sigs}", case=case, form=form)
+                    continue
+                try:
+                    pm = h.to_proto(m).modules[-1]
+                except Exception as e:
+                    rec.violation("edit-raised", f"visibility history {case} raised at export: {type(e).__name__}: {str(e)[:100]}", case=case)
+                    continue
+                rec.count("visibility.exported")
+                names = [s_.name for s_ in pm.signals]
+                if names.count("s") != 1 or (("s" in [p_.signal for p_ in pm.ports]) != want_port):
+                    rec.violation("views-disagree-with-visibility", f"a signal added as {start.name}, made {to.name} and added again by {form}: exported signals {names}, "
+                                  f"ports {[p_.signal for p_ in pm.ports]}", case=case, form=form)
+
+
 def class_vs_procedural(rec, rng, n):
     """A class-style definition equals the equivalent procedural one (exported packages agree)."""
     import hdl21 as h
@@ -852,6 +902,7 @@ def run(ctx, rec):
         class_vs_procedural(rec, rng, 150 if ctx.quick else 2000)
         class_body_probes(rec)
         taking_probes(rec)
+        visibility_probes(rec)
     rec.exhaustive = ctx.nshards == 1
     _state["rec"] = None
 
@@ -871,6 +922,8 @@ def replay(ctx, rec, case):
         reject_probes(rec)
     elif case.get("kind") == "taking":
         taking_probes(rec)
+    elif case.get("kind") == "visibility":
+        visibility_probes(rec)
     elif case.get("kind") == "style":
         import random
 
